@@ -215,7 +215,7 @@ def train_bandits(
                 # Save experience to replay buffer
                 transition = TensorDict(
                     {
-                        "obs": context,
+                        "obs": context[action],
                         "reward": reward,
                     }
                 )
